@@ -288,7 +288,8 @@ def check_slippage_clauses(ctx, model):
                     op = {">": "<", "<": ">", ">=": "<=", "<=": ">="}[c.op]
                 else:
                     continue
-                rej_reaches_ok = any(oks & h.reachable(tgt) for _, tgt in te)
+                from ..dataflow import reach_respecting_consts
+                rej_reaches_ok = any(oks & reach_respecting_consts(h, tgt) for _, tgt in te)
                 found[name] = (op, rej_reaches_ok, b)
         for name in want:
             got = found.get(name)
